@@ -1,0 +1,46 @@
+//go:build verif
+
+// Contracts for package merkle, checked by /verif/govc (comment-only; see /verif/DESIGN.md).
+package merkle
+
+// Hashes are uninterpreted functions of byte content (idealisation: SHA-256 as a function; its
+// collision freedom is used only by the binding lemma, where it is stated as an axiom).
+//@ spec func leafH(leaf Content) Content
+//@ spec func innerH(l Content, r Content) Content
+
+//@ trusted func leafHash(leaf []byte) (r []byte)
+//@   ensures fresh(r) && len(r) == 32 && content(r) == leafH(content(leaf))
+
+//@ trusted func innerHash(left []byte, right []byte) (r []byte)
+//@   ensures fresh(r) && len(r) == 32 && content(r) == innerH(content(left), content(right))
+
+// The recursion of computeHashFromAunts as a specification function: compOK says whether a hash
+// is produced, compVal which one. m is the number of aunts considered (a prefix of the slice).
+//@ spec func splitPoint(n int) int
+//@ trusted func getSplitPoint(length int) (k int)
+//@   requires length >= 1
+//@   ensures k == splitPoint(length) && (length >= 2 ==> 1 <= k && k < length)
+
+//@ spec func compOK(index int, total int, aunts [][]byte, m int) bool = ite(index >= total || index < 0 || total <= 0, false, ite(total == 1, m == 0, ite(m <= 0, false, ite(index < splitPoint(total), compOK(index, splitPoint(total), aunts, m-1), compOK(index - splitPoint(total), total - splitPoint(total), aunts, m-1)))))
+//@ spec func compVal(index int, total int, lh Content, aunts [][]byte, m int) Content = ite(total <= 1 || m <= 0, lh, ite(index < splitPoint(total), innerH(compVal(index, splitPoint(total), lh, aunts, m-1), content(aunts[m-1])), innerH(content(aunts[m-1]), compVal(index - splitPoint(total), total - splitPoint(total), lh, aunts, m-1))))
+
+//@ func computeHashFromAunts(index int, total int, leafHash []byte, innerHashes [][]byte) (r []byte)
+//@   for C13 C18
+//@   safe
+//@   requires leafHash != nil
+//@   ensures (r != nil) <==> compOK(index, total, innerHashes[:0], len(innerHashes))
+//@   ensures r != nil ==> content(r) == compVal(index, total, content(leafHash), innerHashes[:0], len(innerHashes))
+
+//@ func (sp *SimpleProof) ComputeRootHash() (r []byte)
+//@   for C13 C18
+//@   requires sp != nil && sp.LeafHash != nil
+//@   ensures (r != nil) <==> compOK(toInt64(sp.Index), toInt64(sp.Total), sp.Aunts[:0], len(sp.Aunts))
+//@   ensures r != nil ==> content(r) == compVal(toInt64(sp.Index), toInt64(sp.Total), content(sp.LeafHash), sp.Aunts[:0], len(sp.Aunts))
+
+// Verify succeeds only if the leaf hash is the hash of the leaf and the aunts lead to the root.
+//@ func (sp *SimpleProof) Verify(rootHash []byte, leaf []byte) (err error)
+//@   for C13 C18
+//@   requires sp != nil
+//@   requires len(rootHash) > 0     // with an empty root a failed computation (nil) compares equal: callers pass 32-byte roots
+//@   ensures [leafBound] err == nil ==> content(sp.LeafHash) == leafH(content(leaf))
+//@   ensures [rootBound] err == nil ==> compOK(toInt64(sp.Index), toInt64(sp.Total), sp.Aunts[:0], len(sp.Aunts)) && compVal(toInt64(sp.Index), toInt64(sp.Total), content(sp.LeafHash), sp.Aunts[:0], len(sp.Aunts)) == content(rootHash)
